@@ -413,7 +413,7 @@ import datetime as _dtm  # noqa: E402
 FRACS = ('0.0001', '0.0007', '0.000001', '0.000002', '0.5')
 TV_STR = {k: P31.parse('xs:dayTimeDuration($a) %s xs:dayTimeDuration($b)' % k) for k in OPS}
 TV_DT = {k: P31.parse('xs:dateTime($a) %s xs:dateTime($b)' % k) for k in OPS}
-OFFS = ('-00:30', '+00:30', '-00:01', '+00:01', '-00:59', 'Z', '-01:00', '+14:00')
+OFFS_LEX = ('-00:30', '+00:30', '-00:01', '+00:01', '-00:59', 'Z', '-01:00', '+14:00')
 _OFFMIN = {'-00:30': -30, '+00:30': 30, '-00:01': -1, '+00:01': 1, '-00:59': -59, 'Z': 0, '-01:00': -60, '+14:00': 840}
 
 
@@ -443,7 +443,7 @@ def timezone_offsets_in_comparisons(i: int, j: int) -> bool:
     pre: 0 <= i <= 7 and 0 <= j <= 7
     post: _
     """
-    oa, ob_ = OFFS[[k for k in range(8) if k == i][0]], OFFS[[k for k in range(8) if k == j][0]]
+    oa, ob_ = OFFS_LEX[[k for k in range(8) if k == i][0]], OFFS_LEX[[k for k in range(8) if k == j][0]]
     a, b = '2000-01-01T12:00:00' + oa, '2000-01-01T12:00:00' + ob_
     x, y = -_OFFMIN[oa], -_OFFMIN[ob_]          # instant in minutes relative to 12:00Z
     for k, f in OPS.items():
@@ -464,7 +464,7 @@ def year_boundary_comparisons(i: int, j: int, swap: bool) -> bool:
     pre: 0 <= i <= 7 and 0 <= j <= 7
     post: _
     """
-    oa, ob_ = OFFS[[k for k in range(8) if k == i][0]], OFFS[[k for k in range(8) if k == j][0]]
+    oa, ob_ = OFFS_LEX[[k for k in range(8) if k == i][0]], OFFS_LEX[[k for k in range(8) if k == j][0]]
     a, b = '2000-12-31T23:00:00' + oa, '2001-01-01T01:00:00' + ob_
     x, y = -60 - _OFFMIN[oa], 60 - _OFFMIN[ob_]          # instants in minutes relative to 2001-01-01T00:00Z
     if swap:
